@@ -198,11 +198,13 @@ func checkC05(w *World, r *Report) {
 	r.Rule("C05.rmw", "P4,P5", "read-modify-write isolation: between reading an owner's pool record and writing it back, an operation calls nothing that persists pool records itself (no lost update of counters that a nested operation already backed with a transfer)", 3)
 	r.Rule("C05.errprop", "P5", "in cfevesting message trees every error result of a bank or keeper call is tested, and its failure edge returns a non-nil error (event-emission errors may be logged and dropped)", 10)
 	r.Rule("C05.gen", "P5", "InitGenesis persists pools only after ValidateAccountsOnGenesis succeeded, which compares the sum of GetCurrentlyLocked with the module balance", 2)
+	r.Rule("C05.loopvar", "P4", "the module declares a Go version with one variable per loop: no address of such a variable (or of a field of it) and no function literal over it outlives the iteration in which it was taken (stored, put into a map, flowing out of the loop, deferred, handed to a function that stores it) - otherwise the matching element silently becomes the last element; positive and negative controls", 6)
 	r.Rule("C05.locked", "P6", "the currently-locked amount of a pool is InitiallyLocked minus Sent minus Withdrawn (exactly these three ledger fields), and pool validation rejects a negative value of each and of the difference", 5)
 	if !ro.checkFloors(r) {
 		return
 	}
 	c05locked(w, r)
+	loopVarRule(w, r, "C05.loopvar", "cfevesting")
 	modName, _ := constOf(w, "x/cfevesting/types", "ModuleName")
 	poolPrefix := ""
 	if sp := w.Pkg("x/cfevesting/types"); sp != nil {
